@@ -895,11 +895,28 @@ def pncexpr(expr, ifile, verbose=0):
         val = vardict[key]
         # if the output variable has no dimensions, there is likely a problem
         # and the output should be defined.
-        if isinstance(val, (PseudoNetCDFVariable,)) and val.dimensions != ():
+        # (operands of different rank broadcast: the result may carry the
+        # dimensions of the smaller one; then it is labelled like a plain
+        # array, with the dimensions of a variable of its shape)
+        if (
+            isinstance(val, (PseudoNetCDFVariable,)) and
+            val.dimensions != () and
+            tuple(len(ifile.dimensions[dk]) if dk in ifile.dimensions else -1
+                  for dk in val.dimensions) == val.shape
+        ):
             tmpfile.variables[key] = val
         else:
+            vdimt = dimt
+            for symbol in symbols:
+                cand = vardict.get(symbol.get_name(), None)
+                if (
+                    cand is not val and hasattr(cand, 'dimensions') and
+                    tuple(np.shape(cand)) == tuple(np.shape(val))
+                ):
+                    vdimt = cand.dimensions
+                    break
             tmpfile.createVariable(key, val.dtype.char,
-                                   dimt, values=val, **propd)
+                                   vdimt, values=val, **propd)
 
     return tmpfile
 
